@@ -15,7 +15,7 @@ from ..canon import canon
 
 ID = "C09"
 RULE = (
-    "every document of <=4 (quick) / <=5 (thorough) blocks over a 15-block catalogue whose entry, string and field keys come from a small pool "
+    "every document of <=4 (quick) / <=5 (thorough) blocks over a 27-block catalogue whose entry, string and field keys come from a small pool "
     "(entries a/a/b with different types and fields, an entry repeating field keys x,x,y,x, strings s/s/t, two strings named like an entry key, "
     "a free-text comment), parsed with the default stack and with parse_stack=[]; compared with a constructive reference walk (first holder "
     "live, later ones wrapped in place). Non-trivial = document with at least one key collision (distinct by document)."
@@ -51,6 +51,9 @@ CAT = [
     ("string", "p%s", '"again"', '@string{p%s = "again"}'),
     ("dupfield", "z", "e", [("", "1"), ("", "2")], "@z{e, = 1, = 2}"),  # the empty field key repeated
     ("dupfield", "z", "f", [("a%d", "1"), ("a%d", "2")], "@z{f, a%d = 1, a%d = 2}"),
+    # entry keys and string keys that differ from others only in letter case are keys of their own: live, nothing flagged
+    ("entry", "misc", "A", [("t", "{8}")], "@misc{A, t = {8}}"),
+    ("string", "S", "{upper}", "@string{S = {upper}}"),
     # field keys that differ only in letter case are different keys: a live entry, nothing repeated
     ("entry", "misc", "d", [("X", "{1}"), ("x", "{2}"), ("y", "{3}")], "@misc{d, X = {1}, x = {2}, y = {3}}"),
 ]
@@ -255,6 +258,8 @@ def check_two_docs(acc, stripe=None):
             ta = "\n".join(CAT[i][-1] for i in a)
             tb = "\n".join(CAT[i][-1] for i in b)
             for with_replace in (False, True, "first entry and first string removed through equal twins"):
+                if with_replace not in (False, True) and len(b) > 1:
+                    continue  # (twins: second documents of one block)
                 case = {"two_docs": [list(a), list(b)], "rolled_back_replace": with_replace}
                 acc.trace(3)
                 acc.case(nontrivial_key=("two", a, b, with_replace))
